@@ -27,3 +27,18 @@ package corebgp
 //@ pure wellKnownFlags(f) = !bit(f, 128) && bit(f, 64)
 //@ pure optTransFlags(f) = bit(f, 128) && bit(f, 64)
 //@ pure optNonTransFlags(f) = bit(f, 128) && !bit(f, 64)
+
+// prefixes (RFC 4271 4.3): <length octet, ceil(length/8) address octets>
+//@ pure octets(bl) = (bl + 7) / 8
+//@ pure maxBits(v6) = v6 ? 128 : 32
+//@ pure pfxNext(b, o) = o + 1 + octets(b[o])
+//@ pure pfxOK(b, o, v6) = 0 <= o && o < len(b) && b[o] <= maxBits(v6) && pfxNext(b, o) <= len(b)
+//@ pure padB(b, o, i) = i < octets(b[o]) ? b[o+1+i] : 0
+//@ pure pfxAt4(b, o) = prefixFrom(addr4(padB(b,o,0), padB(b,o,1), padB(b,o,2), padB(b,o,3)), b[o])
+//@ pure pfxAt16(b, o) = prefixFrom(addr16(padB(b,o,0), padB(b,o,1), padB(b,o,2), padB(b,o,3), padB(b,o,4), padB(b,o,5), padB(b,o,6), padB(b,o,7), padB(b,o,8), padB(b,o,9), padB(b,o,10), padB(b,o,11), padB(b,o,12), padB(b,o,13), padB(b,o,14), padB(b,o,15)), b[o])
+//@ pure pfxAt(b, o, v6) = v6 ? pfxAt16(b, o) : pfxAt4(b, o)
+// offs[0..n) tiles b[0..pos) with entries whose stride is given by next
+//@ pure pfxChain(b, offs, n, pos) = (n == 0 ? pos == 0 : offs[0] == 0 && pos == pfxNext(b, offs[n-1])) && (forall k :: 0 <= k && k < n - 1 ==> offs[k+1] == pfxNext(b, offs[k]))
+//@ pure apNext(b, o) = pfxNext(b, o + 4)
+//@ pure apOK(b, o, v6) = 0 <= o && o + 5 <= len(b) && pfxOK(b, o + 4, v6)
+//@ pure apChain(b, offs, n, pos) = (n == 0 ? pos == 0 : offs[0] == 0 && pos == apNext(b, offs[n-1])) && (forall k :: 0 <= k && k < n - 1 ==> offs[k+1] == apNext(b, offs[k]))
